@@ -1,3 +1,66 @@
-/- generated from /repo by vharness astfacts; do not edit -/
+/- generated from /repo by `vharness -stream astfacts` on every run; do not edit -/
 namespace Generated
+
+structure RegionFact where
+  refsInfos : Bool
+  mutatingCall : Bool
+  calls : List String
+deriving Repr, DecidableEq
+
+structure MethodFact where
+  name : String
+  exported : Bool
+  lockPair : Bool
+  locksAnywhere : Bool
+  earlyUnlock : Bool
+  unlocked : RegionFact
+  locked : RegionFact
+deriving Repr, DecidableEq
+
+def lockFacts : List MethodFact := [
+  ⟨"BackupFS", true, false, false, false, ⟨false, false, []⟩, ⟨false, false, []⟩⟩,
+  ⟨"BaseFS", true, false, false, false, ⟨false, false, []⟩, ⟨false, false, []⟩⟩,
+  ⟨"Chmod", true, true, true, false, ⟨false, false, []⟩, ⟨false, true, ["realPath", "tryBackup"]⟩⟩,
+  ⟨"Chown", true, true, true, false, ⟨false, false, []⟩, ⟨false, true, ["realPath", "tryBackup"]⟩⟩,
+  ⟨"Chtimes", true, true, true, false, ⟨false, false, []⟩, ⟨false, true, ["realPath", "tryBackup"]⟩⟩,
+  ⟨"Create", true, true, true, false, ⟨false, false, []⟩, ⟨false, true, ["realPath", "tryBackup"]⟩⟩,
+  ⟨"ForceBackup", true, true, true, false, ⟨false, false, []⟩, ⟨false, false, ["realPath", "tryBackup", "tryRemoveBackup"]⟩⟩,
+  ⟨"Lchown", true, true, true, false, ⟨false, false, []⟩, ⟨false, true, ["realPath", "tryBackup"]⟩⟩,
+  ⟨"Lstat", true, false, false, false, ⟨false, false, []⟩, ⟨false, false, []⟩⟩,
+  ⟨"Map", true, true, true, false, ⟨false, false, []⟩, ⟨true, false, []⟩⟩,
+  ⟨"MarshalJSON", true, false, false, false, ⟨false, false, ["Map"]⟩, ⟨false, false, []⟩⟩,
+  ⟨"Mkdir", true, true, true, false, ⟨false, false, []⟩, ⟨false, true, ["realPath", "tryBackup"]⟩⟩,
+  ⟨"MkdirAll", true, true, true, false, ⟨false, false, []⟩, ⟨false, true, ["realPath", "tryBackup"]⟩⟩,
+  ⟨"Name", true, false, false, false, ⟨false, false, []⟩, ⟨false, false, []⟩⟩,
+  ⟨"Open", true, false, false, false, ⟨false, false, ["OpenFile"]⟩, ⟨false, false, []⟩⟩,
+  ⟨"OpenFile", true, true, true, false, ⟨false, false, []⟩, ⟨false, true, ["realPath", "tryBackup"]⟩⟩,
+  ⟨"Readlink", true, false, false, false, ⟨false, false, []⟩, ⟨false, false, []⟩⟩,
+  ⟨"Remove", true, true, true, false, ⟨false, false, []⟩, ⟨false, false, ["remove"]⟩⟩,
+  ⟨"RemoveAll", true, true, true, false, ⟨false, false, []⟩, ⟨false, false, ["Lstat", "realPath", "remove"]⟩⟩,
+  ⟨"Rename", true, true, true, false, ⟨false, false, []⟩, ⟨false, true, ["realPath", "tryBackup"]⟩⟩,
+  ⟨"Rollback", true, true, true, false, ⟨false, false, []⟩, ⟨true, false, ["tryRemoveBackupPaths", "tryRemoveBasePaths", "tryRestoreDirPaths", "tryRestoreFilePaths", "tryRestoreSymlinkPaths"]⟩⟩,
+  ⟨"SetMap", true, true, true, false, ⟨false, false, []⟩, ⟨true, false, []⟩⟩,
+  ⟨"Stat", true, false, false, false, ⟨false, false, []⟩, ⟨false, false, []⟩⟩,
+  ⟨"Symlink", true, true, true, false, ⟨false, false, []⟩, ⟨false, true, ["realPath", "tryBackup"]⟩⟩,
+  ⟨"UnmarshalJSON", true, true, true, false, ⟨false, false, []⟩, ⟨true, false, []⟩⟩,
+  ⟨"alreadySeen", false, false, false, false, ⟨true, false, []⟩, ⟨false, false, []⟩⟩,
+  ⟨"alreadySeenWithInfo", false, false, false, false, ⟨true, false, []⟩, ⟨false, false, []⟩⟩,
+  ⟨"backupDirs", false, false, false, false, ⟨false, true, ["backupRequired", "setInfoIfNotAlreadySeen"]⟩, ⟨false, false, []⟩⟩,
+  ⟨"backupRequired", false, false, false, false, ⟨false, false, ["Lstat", "alreadySeenWithInfo", "setInfoIfNotAlreadySeen"]⟩, ⟨false, false, []⟩⟩,
+  ⟨"realPath", false, false, false, false, ⟨false, false, []⟩, ⟨false, false, []⟩⟩,
+  ⟨"realPathWithFound", false, false, false, false, ⟨false, false, []⟩, ⟨false, false, []⟩⟩,
+  ⟨"remove", false, false, false, false, ⟨false, true, ["realPath", "tryBackup"]⟩, ⟨false, false, []⟩⟩,
+  ⟨"setInfoIfNotAlreadySeen", false, false, false, false, ⟨true, false, []⟩, ⟨false, false, []⟩⟩,
+  ⟨"tryBackup", false, false, false, false, ⟨false, true, ["backupDirs", "backupRequired", "setInfoIfNotAlreadySeen"]⟩, ⟨false, false, []⟩⟩,
+  ⟨"tryRemoveBackup", false, false, false, false, ⟨true, true, ["alreadySeen"]⟩, ⟨false, false, []⟩⟩,
+  ⟨"tryRemoveBackupPaths", false, false, false, false, ⟨false, true, []⟩, ⟨false, false, []⟩⟩,
+  ⟨"tryRemoveBasePaths", false, false, false, false, ⟨false, true, []⟩, ⟨false, false, []⟩⟩,
+  ⟨"tryRestoreDirPaths", false, false, false, false, ⟨true, true, []⟩, ⟨false, false, []⟩⟩,
+  ⟨"tryRestoreFilePaths", false, false, false, false, ⟨true, true, []⟩, ⟨false, false, []⟩⟩,
+  ⟨"tryRestoreSymlinkPaths", false, false, false, false, ⟨true, true, []⟩, ⟨false, false, []⟩⟩
+]
+
+/-- package-level functions that mention `baseInfos` (expected: none) -/
+def pkgFuncsTouchingInfos : List String := []
+
 end Generated
